@@ -1,6 +1,6 @@
 (* AuthProofs.v -- lemmas behind C06 (authentication preamble, order of operations of handle_connection). *)
 From Coq Require Import List NArith ZArith Lia Bool.
-From AnyTLS Require Import Bytes Reader ReaderProg Auth BytesFacts ReaderProofs.
+From AnyTLS Require Import Bytes Reader ReaderProg Generated FactsParsers Auth BytesFacts ReaderProofs.
 Import ListNotations.
 Open Scope N_scope.
 Ltac Zify.zify_post_hook ::= Z.to_euclidean_division_equations.
@@ -14,7 +14,7 @@ Lemma auth_parse_eq H b :
     else Reject E_AUTH
   else NeedMore.
 Proof.
-  unfold auth_parse, auth_prog, hash_len. cbn [run_bytes].
+  unfold auth_parse, auth_prog, hash_len. rewrite auth_hash_len_32. cbn [run_bytes].
   destruct (N.leb_spec 32 (lenN b)) as [H32|H32]; [|reflexivity].
   destruct (bytes_eqb (takeN 32 b) H); [|reflexivity].
   cbn [run_bytes]. rewrite lenN_dropN.
@@ -70,7 +70,7 @@ Proof. clear Hlen. intros Hl. rewrite auth_parse_eq. destruct (N.leb_spec 32 (le
 
 Lemma auth_exact_only : exact_only E_EOF (auth_prog H).
 Proof.
-  unfold auth_prog. constructor. intros h. destruct (bytes_eqb h H); [|constructor].
+  unfold auth_prog, hash_len. constructor. intros h. destruct (bytes_eqb h H); [|constructor].
   constructor. intros l. destruct (de16_of l =? 0); constructor. intros _. constructor.
 Qed.
 
